@@ -1,3 +1,198 @@
-/-! C16 model (stub) -/
+import OtelVerif.Gen.Compression
+/-!
+# C16 model — confighttp body compression: client round-tripper, server decompressor, body-size limit
+
+Mirrors, branch by branch,
+* `config/confighttp/compression.go`: `compressRoundTripper.RoundTrip`, `httpContentDecompressor` (the enable
+  loop that builds the `enabled` map), `decompressor.ServeHTTP` / `newBodyReader`;
+* `config/confighttp/confighttp.go`: `ToServer` (defaults, `maxRequestBodySizeInterceptor` outside the
+  decompressor), `ToClient` (compress only if `IsCompressed`);
+* `config/configcompression/compressiontype.go`: `IsCompressed`.
+
+All tables (`availableDecoders`, alias, defaults, writer switch, type constants, reject status, wrapper order,
+whether the enable loop installs a nil func for an unknown name) come from `Gen/Compression.lean`, which the
+translator regenerates from the Go sources on every run.
+
+The compression libraries are a parameter: `Codec` = what the writer produces (`enc`) and what the reader
+yields from a byte stream (`dec`, which may fail in its constructor → `none`).  Core Lean only.
+-/
 namespace OtelVerif.C16
+open OtelVerif.Gen
+
+abbrev Bytes := List UInt8
+
+/-- What an `io.Reader` yields when read to the end: `data`, then a clean EOF (`ok = true`) or an error. -/
+structure Stream where
+  data : Bytes
+  ok : Bool
+deriving DecidableEq, Repr
+
+/-- `http.MaxBytesReader(w, r, n)` read to the end: at most `n` bytes; an error iff the source had more.
+A source that itself fails within the first `n` bytes passes its error through. -/
+def limitRead (n : Nat) (s : Stream) : Stream :=
+  if s.data.length ≤ n then s else ⟨s.data.take n, false⟩
+
+/-- A compression library, abstractly. `dec` takes the (possibly failing) compressed stream and returns
+`none` if the reader's constructor fails (`gzip.NewReader` reads the header eagerly), else the stream the
+reader yields. -/
+structure Codec where
+  enc : Bytes → Bytes
+  dec : Stream → Option Stream
+
+/-- The round-trip law of a compression library (hypothesis of `C16_roundtrip`; validated by the differential). -/
+def Codec.Lawful (c : Codec) : Prop := ∀ b, c.dec ⟨c.enc b, true⟩ = some ⟨b, true⟩
+
+/-- association-list lookup with decidable equality (easier to reason about than `List.lookup`) -/
+def assoc {β : Type} : List (String × β) → String → Option β
+  | [], _ => none
+  | (k, v) :: rest, x => if x = k then some v else assoc rest x
+
+/-- value stored in the server's `enabled` map -/
+inductive Entry
+  | identity            -- the `""` decoder: returns `nil, nil`, body left untouched
+  | lib (l : String)    -- a reader of package `l`
+  | nilFunc             -- `availableDecoders[unknown]`: the zero value of a func type
+deriving DecidableEq, Repr
+
+/-- `availableDecoders[name]` (Go map read: zero value for a missing key) -/
+def avail (name : String) : Entry :=
+  match assoc Compression.availableDecoders name with
+  | some none => .identity
+  | some (some l) => .lib l
+  | none => .nilFunc
+
+def availHas (name : String) : Bool := (assoc Compression.availableDecoders name).isSome
+
+abbrev EMap := List (String × Entry)
+
+/-- one iteration of `for _, dec := range enableDecoders` (a map write = cons; lookup finds the latest) -/
+def enableOne (m : EMap) (dec : String) : EMap :=
+  let m1 := if Compression.installsNilForUnknown || availHas dec then (dec, avail dec) :: m else m
+  match assoc Compression.aliases dec with
+  | some to => (dec, avail to) :: m1
+  | none => m1
+
+def buildEnabled (l : List String) : EMap := l.foldl enableOne []
+
+/-- what the loop leaves under `name` if `name` is in the list -/
+def resolve (name : String) : Option Entry :=
+  match assoc Compression.aliases name with
+  | some to => some (avail to)
+  | none => if Compression.installsNilForUnknown || availHas name then some (avail name) else none
+
+/-- server settings as written (`compression_algorithms` may be absent = nil; `max_request_body_size` may be ≤ 0) -/
+structure ServerConfig where
+  algorithms : Option (List String)
+  maxBody : Int
+
+/-- effective settings after the defaulting at the top of `ToServer` -/
+structure Cfg where
+  enabled : List String
+  limit : Nat
+
+def ServerConfig.eff (sc : ServerConfig) : Cfg :=
+  { enabled := match sc.algorithms with
+      | none => Compression.defaultCompressionAlgorithms
+      | some l => l,
+    limit := if sc.maxBody ≤ 0 then Compression.defaultMaxRequestBodySize else sc.maxBody.toNat }
+
+structure Request where
+  encoding : String      -- first `Content-Encoding` value, `""` if absent
+  wire : Stream          -- the body as it arrives
+deriving DecidableEq, Repr
+
+inductive Outcome
+  | rejected (status : Nat)   -- `errHandler` called, base handler NOT run
+  | panicked                  -- nil decoder func called (net/http recovers and drops the connection); handler NOT run
+  | handled (read : Stream)   -- base handler ran; this is everything it can read from `r.Body`
+deriving DecidableEq, Repr
+
+/-- `maxRequestBodySizeInterceptor` ∘ `decompressor.ServeHTTP` -/
+def serve (codec : String → Codec) (cfg : Cfg) (r : Request) : Outcome :=
+  let outer := if Compression.outerLimitOnWire then limitRead cfg.limit r.wire else r.wire
+  match assoc (buildEnabled cfg.enabled) r.encoding with
+  | none => .rejected Compression.rejectStatus                 -- "unsupported Content-Encoding"
+  | some .nilFunc => .panicked
+  | some .identity => .handled outer                            -- newBody == nil: body not re-wrapped
+  | some (.lib l) =>
+    match (codec l).dec outer with
+    | none => .rejected Compression.rejectStatus               -- reader constructor failed
+    | some s => .handled (limitRead cfg.limit s)                -- MaxBytesReader over the decoded stream
+
+/-- `configcompression.Type.IsCompressed` -/
+def isCompressed (t : String) : Bool := !(Compression.uncompressedTypes.contains t)
+
+/-- `ToClient` + `compressRoundTripper.RoundTrip`: `hdr` is a `Content-Encoding` the caller already set
+(`""` = none). `none` = `ToClient` fails (unsupported compression type). -/
+def clientSend (codec : String → Codec) (compression : String) (hdr : String) (b : Bytes) : Option Request :=
+  if !isCompressed compression then some ⟨hdr, ⟨b, true⟩⟩          -- no compressRoundTripper installed
+  else match assoc Compression.writers compression with
+    | none => none
+    | some l =>
+      if hdr ≠ "" then some ⟨hdr, ⟨b, true⟩⟩                       -- already encoded: skip
+      else some ⟨compression, ⟨(codec l).enc b, true⟩⟩
+
+/-! ## the property, stated on one observed exchange (used by the driver as search oracle) -/
+
+/-- what the harness can see of one exchange -/
+structure Exchange where
+  enabled : List String        -- effective decoder list
+  limit : Nat                  -- effective limit
+  encoding : String            -- Content-Encoding on the wire
+  sent : Option Bytes          -- the bytes the client was given, when the wire is a lawful encoding of them
+                               -- (or the raw body when there is no encoding); `none` for hostile streams
+  wireLen : Nat
+  outcome : Outcome
+
+/-- names for which some decoder exists at all (a listed but unknown name enables nothing) -/
+def decodable (name : String) : Bool :=
+  availHas name || (assoc Compression.aliases name).isSome
+
+/-- is the request's encoding one the handler must get to see decoded?  No encoding: always (the property
+says such a request passes through untouched); otherwise: listed and decodable. -/
+def Exchange.on (x : Exchange) : Bool :=
+  x.encoding == "" || (x.enabled.contains x.encoding && decodable x.encoding)
+
+/-- Executable check of the property's clauses on one exchange, independent of `serve`;
+`none` = fine, `some sig` = violated, with a structural signature. -/
+def exchangeCheck (x : Exchange) : Option String :=
+  match x.outcome with
+  | .handled s =>
+    if x.limit < s.data.length then some "C16/limit/handler-read-beyond-limit"
+    else if !x.on then some "C16/reject/disabled-encoding-reached-handler"
+    else match x.sent with
+      | some b =>
+        if b.length ≤ x.limit && s != ⟨b, true⟩ then
+          some (if x.limit < x.wireLen then "C16/roundtrip/wire-exceeds-limit-body-within-limit"
+                else if x.encoding == "" then "C16/identity/body-altered"
+                else "C16/roundtrip/body-differs")
+        else none
+      | none => none
+  | .rejected st =>
+    if x.on then
+      match x.sent with
+      | some b =>
+        if b.length ≤ x.limit then
+          some (if x.encoding == "" then
+                  (if x.enabled.contains "" then "C16/identity/rejected" else "C16/decoder-list-without-identity")
+                else if x.limit < x.wireLen then "C16/roundtrip/wire-exceeds-limit-body-within-limit"
+                else "C16/roundtrip/rejected")
+        else none
+      | none => none
+    else if 400 ≤ st && st < 500 then none
+    else some "C16/reject/not-a-client-error"
+  | .panicked =>
+    if x.enabled.contains x.encoding && !decodable x.encoding then some "C16/reject/unknown-name-in-list-nil-decoder-panic"
+    else some "C16/panic"
+
+/-- The property on one exchange, declaratively:
+1. a handler never reads more than `limit` bytes;
+2. an encoding that is not enabled (not listed, or listed with no decoder behind it) is answered with a
+   client error and the handler does not run;
+3. otherwise (no encoding, or an enabled one) a body within the limit is read by the handler exactly. -/
+def PropOn (x : Exchange) : Prop :=
+  (∀ s, x.outcome = .handled s → s.data.length ≤ x.limit) ∧
+  (x.on = false → ∃ st, x.outcome = .rejected st ∧ 400 ≤ st ∧ st < 500) ∧
+  (x.on = true → ∀ b, x.sent = some b → b.length ≤ x.limit → x.outcome = .handled ⟨b, true⟩)
+
 end OtelVerif.C16
